@@ -140,8 +140,22 @@ static void op_for(c17_ctx *c) {
     o_bytes(c, c->enc, w);
     o_u64(c, c->arg == 0 ? varintFORDecode(c->enc, c->dec, c->n) : varintFORBatchDecode(c->enc, c->dec, c->n));
     o_bytes(c, c->dec, c->n * 8);
-    o_u64(c, varintFORGetAt(c->enc, c->n / 2));
+    for (size_t i = 0; i < c->n; i += 3) {
+        o_u64(c, varintFORGetAt(c->enc, i));
+    }
     o_u64(c, m.minValue + m.count);
+    varintFORMeta r;
+    memset(&r, 0, sizeof r);
+    varintFORReadMetadata(c->enc, &r);
+    o_u64(c, r.count + r.minValue + (uint64_t)r.offsetWidth + r.encodedSize);
+    o_u64(c, varintFORGetCount(c->enc) + varintFORGetMinValue(c->enc) + (uint64_t)varintFORGetOffsetWidth(c->enc));
+    size_t b = varintFORDecodeBlock(c->enc, c->dec, c->n / 3, 5);
+    o_u64(c, b);
+    o_bytes(c, c->dec, b * 8);
+    varintFORMeta a;
+    memset(&a, 0, sizeof a);
+    varintFORBatchAnalyze(c->in, c->n, &a);
+    o_u64(c, a.range + varintFORSize(&a) + (uint64_t)varintFORComputeWidth(a.range));
 }
 static void op_pfor(c17_ctx *c) {
     varintPFORMeta m, d;
@@ -152,8 +166,17 @@ static void op_pfor(c17_ctx *c) {
     o_bytes(c, c->enc, w);
     o_u64(c, varintPFORDecode(c->enc, c->dec, &d));
     o_bytes(c, c->dec, c->n * 8);
-    o_u64(c, varintPFORGetAt(c->enc, (uint32_t)(c->n - 1), &d));
+    for (size_t i = 0; i < c->n; i += 2) {
+        o_u64(c, varintPFORGetAt(c->enc, (uint32_t)i, &d));
+    }
     o_u64(c, m.exceptionCount);
+    varintPFORMeta r, t;
+    memset(&r, 0, sizeof r);
+    memset(&t, 0, sizeof t);
+    o_u64(c, varintPFORReadMeta(c->enc, &r));
+    o_u64(c, r.count + r.min + (uint64_t)r.width + r.exceptionCount);
+    o_u64(c, (uint64_t)varintPFORComputeThreshold(c->in, (uint32_t)c->n, (uint32_t)c->arg, &t));
+    o_u64(c, varintPFORSize(&t));
 }
 static void op_group(c17_ctx *c) {
     uint8_t fc = (uint8_t)(c->n > 64 ? 64 : c->n), got = 0;
@@ -163,6 +186,14 @@ static void op_group(c17_ctx *c) {
     o_u64(c, varintGroupDecode(c->enc, c->dec, &got, 64));
     o_bytes(c, c->dec, (size_t)fc * 8);
     o_u64(c, varintGroupSize(c->in, fc));
+    o_u64(c, varintGroupGetSize(c->enc));
+    o_u64(c, varintGroupGetFieldCount(c->enc));
+    for (uint8_t i = 0; i < fc; i++) {
+        uint64_t f = 0;
+        o_u64(c, varintGroupGetField(c->enc, i, &f));
+        o_u64(c, f);
+        o_u64(c, (uint64_t)varintGroupGetFieldWidth(c->enc, i));
+    }
 }
 static void op_dict(c17_ctx *c) {
     size_t w = varintDictEncode(c->enc, c->in, c->n);
@@ -178,6 +209,23 @@ static void op_dict(c17_ctx *c) {
         free(r);
     }
     o_u64(c, varintDictEncodedSize(c->in, c->n));
+    varintDict *d = varintDictCreate();
+    if (d) {
+        o_u64(c, (uint64_t)varintDictBuild(d, c->in, c->n));
+        for (size_t i = 0; i < c->n; i += 4) {
+            int32_t f = varintDictFind(d, c->in[i]);
+            o_u64(c, (uint64_t)f);
+            o_u64(c, varintDictLookup(d, (uint32_t)f));
+        }
+        size_t w2 = varintDictEncodeWithDict(c->enc2, d, c->in, c->n);
+        o_u64(c, w2 + varintDictEncodedSizeWithDict(d, c->n));
+        o_bytes(c, c->enc2, w2);
+        varintDictFree(d);
+    }
+    varintDictStats st;
+    memset(&st, 0, sizeof st);
+    o_u64(c, (uint64_t)varintDictGetStats(c->in, c->n, &st));
+    o_u64(c, st.uniqueCount + st.totalBytes);
 }
 static void op_rle(c17_ctx *c) {
     varintRLEMeta m;
@@ -188,6 +236,23 @@ static void op_rle(c17_ctx *c) {
     o_u64(c, c->arg ? varintRLEDecodeWithHeader(c->enc, c->dec, c->n) : varintRLEDecode(c->enc, c->dec, c->n));
     o_bytes(c, c->dec, c->n * 8);
     o_u64(c, m.runCount);
+    if (!c->arg) {
+        for (size_t i = 0; i < c->n; i += 2) {
+            o_u64(c, varintRLEGetAt(c->enc, i));
+        }
+        o_u64(c, varintRLEGetRunCount(c->enc, w));
+        size_t rl = 0;
+        uint64_t rv = 0;
+        o_u64(c, varintRLEDecodeRun(c->enc, &rl, &rv));
+        o_u64(c, rl + rv);
+        o_u64(c, varintRLESize(c->in, c->n) + (uint64_t)varintRLEIsBeneficial(c->in, c->n));
+        varintRLEMeta a;
+        memset(&a, 0, sizeof a);
+        o_u64(c, (uint64_t)varintRLEAnalyze(c->in, c->n, &a));
+        o_u64(c, a.runCount + a.encodedSize + a.uniqueValues);
+    } else {
+        o_u64(c, varintRLEGetCount(c->enc));
+    }
 }
 static void op_elias(c17_ctx *c) {
     uint64_t t[160];
@@ -201,6 +266,14 @@ static void op_elias(c17_ctx *c) {
     o_bytes(c, c->enc, w);
     o_u64(c, c->arg ? varintEliasDeltaDecodeArray(c->enc, m.totalBits, c->dec, c->n) : varintEliasGammaDecodeArray(c->enc, m.totalBits, c->dec, c->n));
     o_bytes(c, c->dec, c->n * 8);
+    varintBitWriter bw;
+    varintBitWriterInit(&bw, c->enc2, 64);
+    o_u64(c, c->arg ? varintEliasDeltaEncode(&bw, t[0]) : varintEliasGammaEncode(&bw, t[0]));
+    o_u64(c, c->arg ? varintEliasDeltaBits(t[1 % c->n]) : varintEliasGammaBits(t[1 % c->n]));
+    varintBitReader br;
+    varintBitReaderInit(&br, c->enc2, bw.bitPos);
+    o_u64(c, c->arg ? varintEliasDeltaDecode(&br) : varintEliasGammaDecode(&br));
+    o_u64(c, (uint64_t)(c->arg ? varintEliasDeltaIsBeneficial(t, c->n) : varintEliasGammaIsBeneficial(t, c->n)));
 }
 static void op_bp128(c17_ctx *c) {
     varintBP128Meta m;
@@ -234,6 +307,10 @@ static void op_bp128(c17_ctx *c) {
     o_u64(c, r);
     o_bytes(c, c->enc, w);
     o_u64(c, m.blockCount);
+    if (c->arg == 0) {
+        o_u64(c, varintBP128GetCount(c->enc, w));
+        o_u64(c, (uint64_t)varintBP128MaxBitWidth64(c->in, c->n) + (uint64_t)varintBP128IsBeneficial64(c->in, c->n) + (uint64_t)varintBP128IsSorted64(c->in, c->n));
+    }
 }
 static void op_adaptive(c17_ctx *c) {
     varintAdaptiveMeta m;
@@ -251,6 +328,14 @@ static void op_adaptive(c17_ctx *c) {
     o_u64(c, varintAdaptiveDecode(c->enc, c->dec, c->n, NULL));
     o_bytes(c, c->dec, c->n * 8);
     o_u64(c, (uint64_t)m.encodingType);
+    varintAdaptiveMeta rm;
+    memset(&rm, 0, sizeof rm);
+    o_u64(c, varintAdaptiveReadMeta(c->enc, &rm));
+    o_u64(c, rm.originalCount + rm.encodedSize + (uint64_t)rm.encodingType);
+    varintAdaptiveDataStats st;
+    varintAdaptiveAnalyze(t, c->n, &st);
+    o_u64(c, st.uniqueCount + st.range + st.avgDelta + (uint64_t)varintAdaptiveSelectEncoding(&st));
+    o_u64(c, varintAdaptiveCountUnique(t, c->n) + (uint64_t)varintAdaptiveCheckSorted(t, c->n) + varintAdaptiveAvgDelta(t, c->n));
 }
 static void op_float(c17_ctx *c) {
     double d[160], out[160];
